@@ -136,6 +136,12 @@ NatEl(n, parts, tag) ==      \* parts \subseteq {"4min","4max","6min","6max","pm
        \o o("4max", "SetRangeIPv4Max", V(tag + 1, 4)) \o o("6min", "SetRangeIPv6Min", V(tag + 2, 16))
        \o o("6max", "SetRangeIPv6Max", V(tag + 3, 16)) \o o("pmin", "SetRangeProtoMin", V(tag + 4, 2))
        \o o("pmax", "SetRangeProtoMax", V(tag + 5, 2)))
+\* every range setter called twice (a range that is set and later changed): the last value counts, the action does not grow
+NatTwiceEl(n, parts, tag) ==
+  LET e == NatEl(n, parts, tag)
+      dbl(op) == IF op.op = "call" /\ op.m \in {"SetRangeIPv4Min", "SetRangeIPv4Max", "SetRangeIPv6Min", "SetRangeIPv6Max", "SetRangeProtoMin", "SetRangeProtoMax"}
+                 THEN <<[op EXCEPT !.args = <<V(tag + 77, Len(op.args[1]))>>], op>> ELSE <<op>> IN
+  El(n, e.tree, Flat([i \in DOMAIN e.ops |-> dbl(e.ops[i])]))
 \* the NAT flag setters: SNAT/DNAT and hash/random are mutually exclusive (the second call of a pair is refused and changes nothing)
 NatFlagBit(c) == CASE c = "SetSNAT" -> 1 [] c = "SetDNAT" -> 2 [] c = "SetPersistent" -> 4 [] c = "SetProtoHash" -> 8 [] c = "SetRandom" -> 16
 NatFlagExcl(c) == CASE c = "SetSNAT" -> 2 [] c = "SetDNAT" -> 1 [] c = "SetProtoHash" -> 16 [] c = "SetRandom" -> 8 [] OTHER -> 0
